@@ -30,7 +30,7 @@ Inductive errkind := EOS (errno : Z) | EOther.
 Inductive fdsrc := ChildStdin | ChildStdout | ChildStderr | FcgiSock.
 
 (* the messages drop_privileges can return *)
-Inductive reason := RNoUser | RNoName | RNoUid | RNonRoot | RSetgroups | RSetgid.
+Inductive reason := RNoUser | RNoName | RNoUid | RNonRoot | RSetgroups | RSetgid | RSetuid.
 
 (* what is written to descriptor 2 *)
 Inductive msg :=
@@ -253,7 +253,8 @@ Section Run.
             try_except_os (sys (Setgid gid) ;; ret None) (fun _ => ret (Some RSetgid)) >>= fun r2 =>
             match r2 with
             | Some m => ret (Some m)
-            | None => sys (Setuid uid) ;; ret None
+            | None =>
+              try_except_os (sys (Setuid uid) ;; ret None) (fun _ => ret (Some RSetuid))
             end
           end
       end
